@@ -94,12 +94,12 @@ pub fn run_alloc<T: Model>(ctx: &mut Ctx) {
     let d = T::desc();
     let name = T::rust_name();
     let mut inputs: Vec<Vec<u8>> = Vec::new();
-    let nv = if ctx.thorough { 20 } else { 5 };
+    let nv = if ctx.thorough { 20 } else { 3 };
     for i in 0..nv {
         let v = T::gen(&mut ctx.rng, 1 + i % 5);
         if let Ok(e) = catch_unwind(AssertUnwindSafe(|| v.as_ssz_bytes())) {
             let muts = crate::codec::mutations(&mut ctx.rng, &e, false);
-            let take = if ctx.thorough { 200 } else { 40 };
+            let take = if ctx.thorough { 200 } else { 24 };
             let step = (muts.len() / take).max(1);
             inputs.extend(muts.into_iter().step_by(step));
             inputs.push(e);
